@@ -56,6 +56,7 @@ type termPlan struct {
 	Mirror              bool   `json:"ipfix_and_sflow_mirroring_enabled"`
 	Ballast             int    `json:"further_templates_per_exporter"` // a large site: the cache files reach several MiB
 	StopAtBind          bool   `json:"second_life_is_stopped_the_moment_its_sockets_exist"`
+	Only                string `json:"only_this_template_protocol_is_enabled,omitempty"`
 }
 
 type termWitness struct {
@@ -130,6 +131,10 @@ func runTermPlan(run *mon.Run, p termPlan, dir string, st *termStats) {
 		return
 	}
 	defer sink.close()
+	protos := []string{"ipfix", "nf9"}
+	if p.Only != "" {
+		protos = []string{p.Only}
+	}
 	ports := map[string]int{"ipfix": reservedPort(), "nf9": reservedPort(), "nf5": reservedPort(), "sflow": reservedPort()}
 	statsPort := reservedPort()
 	conf := map[string]string{
@@ -157,6 +162,11 @@ func runTermPlan(run *mon.Run, p termPlan, dir string, st *termStats) {
 			conf["sflow-mirror-addr"], conf["sflow-mirror-port"] = "127.0.0.1", mp
 		}
 	}
+	if p.Only != "" {
+		// a site that collects one of the two template-bearing protocols only: the other listener is switched off
+		// (round 14, C15-m: the remaining protocol's templates must be saved at the signal all the same)
+		conf[map[string]string{"ipfix": "netflow9", "nf9": "ipfix"}[p.Only]+"-enabled"] = "false"
+	}
 	writeConf(dir, conf, sink.port)
 	if p.Elements {
 		b, _ := os.ReadFile(filepath.Join(mon.RepoDir(), "scripts", "ipfix.elements"))
@@ -166,7 +176,7 @@ func runTermPlan(run *mon.Run, p termPlan, dir string, st *termStats) {
 	var exps []*exporterT
 	o := wire.GenOpts{Elems: snapE, Reduced: true, MaxFields: 6, MaxStrLen: 10}
 	setTemplates := func(e *exporterT, maxFields int, minFields int) {
-		for _, proto := range []string{"ipfix", "nf9"} {
+		for _, proto := range protos {
 			oo := o
 			oo.MaxFields = maxFields
 			oo.Varlen = proto == "ipfix"
@@ -196,7 +206,7 @@ func runTermPlan(run *mon.Run, p termPlan, dir string, st *termStats) {
 			setTemplates(e, 30, 15)
 			return e
 		}
-		for _, proto := range []string{"ipfix", "nf9"} {
+		for _, proto := range protos {
 			oo := o
 			oo.Varlen = proto == "ipfix"
 			oo.OnlyPEN0 = true
@@ -262,7 +272,7 @@ func runTermPlan(run *mon.Run, p termPlan, dir string, st *termStats) {
 	seenAt := func(lines []string) map[uint32]bool {
 		out := map[uint32]bool{}
 		for _, l := range lines {
-			for _, proto := range []string{"ipfix", "nf9"} {
+			for _, proto := range protos {
 				if m := seqRe2[proto].FindStringSubmatch(l); m != nil {
 					v, _ := strconv.ParseUint(m[1], 10, 32)
 					out[uint32(v)] = true
@@ -282,7 +292,11 @@ func runTermPlan(run *mon.Run, p termPlan, dir string, st *termStats) {
 				return false
 			}
 			udp, _ := sockets(col.vflowPid())
-			if udp[ports["ipfix"]] && udp[ports["nf9"]] {
+			up := true
+			for _, pr := range protos {
+				up = up && udp[ports[pr]]
+			}
+			if up {
 				return true
 			}
 			time.Sleep(5 * time.Millisecond)
@@ -412,7 +426,7 @@ func runTermPlan(run *mon.Run, p termPlan, dir string, st *termStats) {
 			lines := sink.snapshot()
 			byAgentSeq := map[string]string{}
 			for _, l := range lines {
-				for _, proto := range []string{"ipfix", "nf9"} {
+				for _, proto := range protos {
 					if m := seqRe2[proto].FindStringSubmatch(l); m != nil {
 						if a := agentRe2.FindStringSubmatch(l); a != nil {
 							byAgentSeq[a[1]+"|"+m[1]] = l
@@ -490,13 +504,13 @@ func runTermPlan(run *mon.Run, p termPlan, dir string, st *termStats) {
 		sendRound := func(from int, pace time.Duration) {
 			if cycle == 0 {
 				for _, e := range noise {
-					for _, proto := range []string{"ipfix", "nf9"} {
+					for _, proto := range protos {
 						snd.send(e.IP, ports[proto], e.TplD[proto])
 					}
 				}
 			}
 			for _, e := range exps[from:] {
-				for _, proto := range []string{"ipfix", "nf9"} {
+				for _, proto := range protos {
 					snd.send(e.IP, ports[proto], e.TplD[proto])
 				}
 			}
@@ -506,7 +520,7 @@ func runTermPlan(run *mon.Run, p termPlan, dir string, st *termStats) {
 				oo := o
 				oo.MaxFields, oo.OnlyPEN0, oo.Options = 25, true, false
 				for ei, e := range exps[from:] {
-					for _, proto := range []string{"ipfix", "nf9"} {
+					for _, proto := range protos {
 						oo.Varlen = proto == "ipfix"
 						for b := 0; b < p.Ballast; b += 12 {
 							var ts []*wire.Template
@@ -533,7 +547,7 @@ func runTermPlan(run *mon.Run, p termPlan, dir string, st *termStats) {
 			}
 			time.Sleep(20 * time.Millisecond)
 			for _, e := range exps[from:] {
-				for _, proto := range []string{"ipfix", "nf9"} {
+				for _, proto := range protos {
 					d, s := dataFor(e, proto)
 					tmu.Lock()
 					sentSeq[s] = ackKey{e, proto}
@@ -741,7 +755,7 @@ func runTermPlan(run *mon.Run, p termPlan, dir string, st *termStats) {
 			}
 		}
 		// ---- the cache files it left
-		for _, proto := range []string{"ipfix", "nf9"} {
+		for _, proto := range protos {
 			f := conf["ipfix-tpl-cache-file"]
 			if proto == "nf9" {
 				f = conf["netflow9-tpl-cache-file"]
@@ -833,6 +847,9 @@ func termMain(args mon.Args) {
 	}
 	for i := 0; i < run.Pick(2, 8); i++ {
 		plans = append(plans, termPlan{Index: 900 + i, Seed: run.Seed, Shape: "burst", When: "after-ack", Signal: []string{"TERM", "INT"}[i%2], Cycles: 2, Exporters: 10, Workers: 4, SinkStalls: true})
+	}
+	for i := 0; i < 2; i++ {
+		plans = append(plans, termPlan{Index: 990 + i, Seed: run.Seed, Shape: "burst", When: "after-ack", Signal: []string{"TERM", "INT"}[i%2], Cycles: 3, Exporters: 12, Workers: 4, Only: []string{"nf9", "ipfix"}[i%2]})
 	}
 	for i := 0; i < run.Pick(1, 4); i++ {
 		plans = append(plans, termPlan{Index: 950 + i, Seed: run.Seed, Shape: "burst", When: "after-ack", Signal: "TERM", Cycles: 2, Exporters: 120, Workers: 8, Ballast: 24})
